@@ -66,7 +66,7 @@ func Rotation(radians fl) Transform {
 
 // Skew returns a skew transformation
 func Skew(thetax, thetay fl) Transform {
-	b, c := fl(math.Tan(float64(thetax))), fl(math.Tan(float64(thetay)))
+	b, c := fl(math.Tan(float64(thetay))), fl(math.Tan(float64(thetax)))
 	return Transform{1, b, c, 1, 0, 0}
 }
 
